@@ -212,6 +212,24 @@ class KwOnlyTraceErr(GlomError):
         self.code = code
 
 
+class EmptyProblems(Exception):
+    """an aggregate "collected problems" error whose instances are FALSY (it is sized, and raised with nothing collected yet)"""
+    def __init__(self, code=0):
+        Exception.__init__(self, 'problems of run %d' % code)
+        self.code = code
+
+    def __len__(self):
+        return 0
+
+
+class QuietGlomError(GlomError):
+    def __init__(self, code=0):
+        GlomError.__init__(self, 'quiet failure %d' % code)
+
+    def __bool__(self):
+        return False
+
+
 class BoomFn:
     def __init__(self, tag, cls=None):
         self.tag = tag
@@ -249,7 +267,7 @@ def _plain(v, depth=0):
 
 FAIL_KINDS = ['missing-path', 'failing-T', 'raising-callable', 'match-type', 'check', 'exhausted-coalesce', 'missing-attr',
               'exhausted-coalesce-skip', 'list-segment', 'raises-after-recovered-child', 'exhausted-coalesce-of-T',
-              'long-target-without-a-usable-len', 'user-glomerror-kwonly']
+              'long-target-without-a-usable-len', 'user-glomerror-kwonly', 'raises-falsy-error', 'raises-falsy-glomerror', 'switch-default-fails']
 
 
 class SpecGen:
@@ -282,6 +300,16 @@ class SpecGen:
             if k == 'user-glomerror-kwonly':
                 # the error raised is a user's GlomError subclass that cannot be re-created from its args
                 return BoomFn(n, KwOnlyTraceErr)
+            if k == 'raises-falsy-error':
+                return BoomFn(n, EmptyProblems)
+            if k == 'raises-falsy-glomerror':
+                return BoomFn(n, QuietGlomError)
+            if k == 'switch-default-fails':
+                # no case of the Switch applies and its default - a spec - fails: the failed keys are its attempted branches, the
+                # default's failure is what is raised
+                bad_default = self.rng.choice([T['zz%d' % n], T.zz_attr, (T['a'], T['yy%d' % n])])
+                keys = [self.rng.choice([M == 'never-%d' % n, Match(str), Coalesce('zz%d' % n, T['xx%d' % n]), 'zz%d.q' % n]) for _ in range(self.rng.randint(1, 3))]
+                return Switch([(k_, OkFn(self.tag())) for k_ in keys], default=bad_default)
             if k == 'match-type':
                 return Match({'k': str, 'zz%d' % n: object})
             if k == 'check':
